@@ -25,7 +25,43 @@ fn gen_key_value(rng: &mut Rng, mix: usize) -> V {
         12 => V::Safe((*rng.pick(&["a", "b"])).to_string()),
         13 => V::Arr(vec![V::I64(1), V::Arr(vec![V::I64(rng.below(2) as i64)])]),
         14 => V::Bytes(vec![rng.below(3) as u8]),
-        _ => V::F64(*rng.pick(&[f64::INFINITY, f64::NEG_INFINITY, -0.0, 1e300])),
+        15 => V::F64(*rng.pick(&[f64::INFINITY, f64::NEG_INFINITY, -0.0, 1e300])),
+        _ => prefix_array(rng),
+    }
+}
+
+/// arrays sharing prefixes: whether two of them are comparable is decided at the first position where they differ, so
+/// comparability is not transitive among them
+fn prefix_array(rng: &mut Rng) -> V {
+    let i = |x: i64| V::I64(x);
+    let st = |x: &str| V::Str(x.to_string());
+    V::Arr(
+        rng.pick(&[
+            vec![i(1), i(2)], vec![i(0)], vec![i(1), st("a")], vec![i(1)], vec![i(1), i(2), st("x")], vec![i(1), V::Arr(vec![i(2)])], vec![i(1), i(2), i(3)], vec![st("a")], vec![i(1), st("b")],
+            vec![V::Arr(vec![i(1)]), i(2)], vec![V::Arr(vec![i(1)]), st("a")], vec![i(2)], vec![], vec![i(1), V::F64(2.5)], vec![i(1), V::Bool(true)], vec![i(0), st("z")],
+        ])
+        .clone(),
+    )
+}
+
+/// whether the engine's documented classes make two keys comparable: numbers with numbers, strings with strings, bools
+/// with bools, bytes with bytes, arrays element by element up to the first position that decides
+fn comparable(a: &V, b: &V) -> bool {
+    match (a, b) {
+        (V::Arr(x), V::Arr(y)) => {
+            for (p, q) in x.iter().zip(y) {
+                if !comparable(p, q) {
+                    return false;
+                }
+                if !model::eq(p, q) {
+                    return true;
+                }
+            }
+            true
+        }
+        (V::Bytes(_), V::Bytes(_)) => true,
+        (V::None, V::None) => true,
+        _ => model::scalar_cmp(a, b).is_some(),
     }
 }
 
@@ -72,8 +108,10 @@ pub fn run(cx: &mut Cx) {
             2 => 21 + rng.below(180),
             _ => rng.below(40),
         };
-        let mix = *rng.pick(&[2usize, 4, 5, 6, 7, 9, 10, 11, 13, 16]);
-        let keys: Vec<V> = (0..len).map(|_| gen_key_value(&mut rng, mix)).collect();
+        let mix = *rng.pick(&[2usize, 4, 5, 6, 7, 9, 10, 11, 13, 16, 18]);
+        // mix 18: nothing but prefix-sharing arrays (short lists, so that comparable sets occur too)
+        let len = if mix == 18 { len.min(2 + case as usize % 5) } else { len };
+        let keys: Vec<V> = (0..len).map(|_| if mix == 18 { prefix_array(&mut rng) } else { gen_key_value(&mut rng, mix) }).collect();
         let missing: Vec<bool> = (0..len).map(|_| mix == 16 && rng.chance(1, 15)).collect();
         let elems = |shape: u8| -> V {
             V::Arr(
@@ -114,7 +152,9 @@ pub fn run(cx: &mut Cx) {
         let all_scalar = nn.iter().all(|k| is_scalar_class(k));
         // certainly refused: two scalar kinds, or a scalar and a container, or two maps
         let nmaps = nn.iter().filter(|k| matches!(k, V::Map(_))).count();
-        let must_refuse = classes.len() > 1 || nmaps > 1;
+        // … or any two keys that are not comparable with each other, wherever they stand ("mutually" is pairwise)
+        let pair_incomparable = (0..nn.len()).any(|i| (i + 1..nn.len()).any(|j| !comparable(nn[i], nn[j])));
+        let must_refuse = classes.len() > 1 || nmaps > 1 || pair_incomparable;
         let must_accept = all_scalar && classes.len() <= 1;
 
         macro_rules! render {
